@@ -2,6 +2,14 @@
 import re
 
 PROPS = {
+    "C20": {
+        "modules": ["Ark.Props.C20"],
+        "claimed": False,
+        "rule": "one op line per compile-time literal (MontFp!/BigInt! in const items of a generated grid), run-time twin (from_sign_and_limbs, FromStr) or derive-macro fact; distinct = distinct op line; non-trivial = literal denotes a value outside {0,1}",
+        "exhaustive": [],
+        "partial": [],
+        "assumptions": ["radix digit parsing is num-bigint's (modelled as positional notation)", "literals the macro rejects at compile time cannot be in the grid (documented in the model, exercised by a scratch crate once)"],
+    },
     "C03": {
         "modules": ["Ark.Props.C03"],
         "claimed": False,
